@@ -422,7 +422,7 @@ impl Check for C18 {
         "C18"
     }
     fn plan(&self, tier: Tier) -> Plan {
-        Plan { cases: if tier == Tier::Quick { 8_000 } else { 300_000 }, max_len: 8192 }
+        Plan { cases: if tier == Tier::Quick { 80_000 } else { 1_500_000 }, max_len: 8192 }
     }
     fn fixed_cases(&self) -> Vec<(String, Vec<u8>)> {
         vec![
